@@ -562,6 +562,27 @@ fn chunk_trains(quick: bool) -> Vec<Scen> {
     v
 }
 
+/// a multi-packet request *after* an earlier one on the same connection (the reader's buffer has
+/// been large once), with a small command in front of it in the same read: bookkeeping that is
+/// only right while the pending message starts at the front of the buffer shows here
+fn large_after_large(quick: bool) -> Vec<Scen> {
+    let mut v = Vec::new();
+    for (s1, s2) in if quick { vec![(MAXP + 10, MAXP + 20)] } else { vec![(MAXP + 10, MAXP + 20), (2 * MAXP + 3, MAXP), (MAXP - 1, 2 * MAXP + 9)] } {
+        let (c1, cb1) = small_cmd(COM_QUERY, &ascii_pattern(s1 - 1, 3));
+        let (c2, cb2) = small_cmd(COM_QUERY, b"between");
+        let (c3, cb3) = small_cmd(COM_QUERY, &ascii_pattern(s2 - 1, 11));
+        let (c4, cb4) = small_cmd(COM_QUERY, b"after");
+        let conv = Conv::new(vec![c1, c2, c3, c4]);
+        let mut sc = Scen::new(format!("H + query of {} payload bytes + small query + query of {} payload bytes + small query", s1, s2), conv, vec![auth_cb(), cb1, cb2, cb3, cb4]);
+        let e = sc.ends.clone();
+        // everything in one read; the first large request in reads of its own and the rest in one;
+        // additionally the tail in a read of its own; the small command alone
+        sc.sets = Some(vec![vec![], vec![e[1]], vec![e[0], e[1]], vec![e[1], e[3]], vec![e[1], e[2]]]);
+        v.push(sc);
+    }
+    v
+}
+
 /// single-packet payloads around 2^15, 2^16, 2^17, 2^20 and a few millions
 fn size_classes(quick: bool) -> Vec<Scen> {
     let mut sizes: Vec<usize> = Vec::new();
@@ -863,6 +884,8 @@ pub fn build(quick: bool) -> Check {
     trains.threads = Some(8);
     let deep = ChunkFamily::new("deep-pipeline", deep_pipeline(quick));
     let ltm = ChunkFamily::new("large-then-many", large_then_many(quick));
+    let mut lal = ChunkFamily::new("large-request-after-large-request", large_after_large(quick));
+    lal.threads = Some(4);
     let texts = ChunkFamily::new("texts-beyond-ascii-behind-every-handshake", texts_behind_handshakes());
     let mut walks: Vec<Box<dyn Family>> = Vec::new();
     // long sessions of every command kind under small and odd read sizes
@@ -883,7 +906,7 @@ pub fn build(quick: bool) -> Check {
     Check {
         id: "C01",
         level: "model_checking",
-        rule: "every execution is one complete run of the real run_on over a scripted transport; schedules are sets of cut positions no read() may cross (all 2^n sets for streams of <= 17 (quick) / 23 (thorough) command bytes; all sets of <= 2-3 cuts for longer streams; <= 1-2 cuts around fragment headers for 16-32 MiB payloads; single-packet payloads around 2^15, 2^16, 2^17, 2^20 and up to 3 MB with <= 1-2 cuts; trains of three long-data chunks of every combination of sizes from a ladder (10..65536, thorough 0..200000) for one parameter, then EXECUTE and a query, coalesced and with one cut around every command boundary, and two chunks that are each fragmented (one payload of exactly 2^24-1 bytes) with one cut around every packet header and message end; 300/1200 pipelined commands with a cut at (every fifth /) every position and under uniform read sizes 1..4097; a command of 70 KB..1.1 MB (thorough 5 KB..9 MB) followed by 40 / 1000 small commands in the same burst with <= 1 (thorough 2) cuts around the end of the large command and the next headers; every single cut of H + 4 commands with ErrorKind::Interrupted returned once by each read (what reaches the shim must stay a byte-exact prefix); every history of 5 (thorough: 6) commands over PREPARE / long data / EXECUTE / CLOSE / two queries / PING as a well-behaved client encodes it, followed by a query, under every single cut behind the handshake, histories of 3 (4) under every pair of cuts (thorough: of 3 under every triple). Long scripted sessions: 130..4099 (thorough: up to 131101) ordinary commands of every kind on one connection in up to six mixes (even, prepare/close churn with growing ids, executions, long-data chunks, unanswered commands, text and library-answered commands) under several client/transport behaviours (pipelined, request ids advancing by 7, lock-step, 1..4093-byte reads, 7/11-byte writes), generated by a fixed rule, kept valid with the registry model and judged on the complete trace (callbacks with arguments, result, strict decode of every reply with its sequence ids). Non-trivial = some read ends strictly inside a packet header or one read spans two messages.".into(),
+        rule: "every execution is one complete run of the real run_on over a scripted transport; schedules are sets of cut positions no read() may cross (all 2^n sets for streams of <= 17 (quick) / 23 (thorough) command bytes; all sets of <= 2-3 cuts for longer streams; <= 1-2 cuts around fragment headers for 16-32 MiB payloads; single-packet payloads around 2^15, 2^16, 2^17, 2^20 and up to 3 MB with <= 1-2 cuts; trains of three long-data chunks of every combination of sizes from a ladder (10..65536, thorough 0..200000) for one parameter, then EXECUTE and a query, coalesced and with one cut around every command boundary, and two chunks that are each fragmented (one payload of exactly 2^24-1 bytes) with one cut around every packet header and message end; 300/1200 pipelined commands with a cut at (every fifth /) every position and under uniform read sizes 1..4097; a multi-packet request behind an earlier multi-packet request and a small command on the same connection, coalesced in five ways; a command of 70 KB..1.1 MB (thorough 5 KB..9 MB) followed by 40 / 1000 small commands in the same burst with <= 1 (thorough 2) cuts around the end of the large command and the next headers; every single cut of H + 4 commands with ErrorKind::Interrupted returned once by each read (what reaches the shim must stay a byte-exact prefix); every history of 5 (thorough: 6) commands over PREPARE / long data / EXECUTE / CLOSE / two queries / PING as a well-behaved client encodes it, followed by a query, under every single cut behind the handshake, histories of 3 (4) under every pair of cuts (thorough: of 3 under every triple). Long scripted sessions: 130..4099 (thorough: up to 131101) ordinary commands of every kind on one connection in up to six mixes (even, prepare/close churn with growing ids, executions, long-data chunks, unanswered commands, text and library-answered commands) under several client/transport behaviours (pipelined, request ids advancing by 7, lock-step, 1..4093-byte reads, 7/11-byte writes), generated by a fixed rule, kept valid with the registry model and judged on the complete trace (callbacks with arguments, result, strict decode of every reply with its sequence ids). Non-trivial = some read ends strictly inside a packet header or one read spans two messages.".into(),
         assumptions: vec![
             "1-byte reads over multi-megabyte payloads are not run (the implementation re-parses per read); they are covered exhaustively at small sizes".into(),
             "the oracle is the shim's callback log plus a strict client-side decode of all replies".into(),
@@ -892,7 +915,7 @@ pub fn build(quick: bool) -> Check {
         exhaustive: true,
         caps_hit: vec![],
         families: {
-            let mut f: Vec<Box<dyn Family>> = vec![Box::new(small), Box::new(phase), Box::new(thr), Box::new(frag), Box::new(sizes), Box::new(trains), Box::new(deep), Box::new(ltm), Box::new(texts), Box::new(InterruptedReads::new())];
+            let mut f: Vec<Box<dyn Family>> = vec![Box::new(small), Box::new(phase), Box::new(thr), Box::new(frag), Box::new(sizes), Box::new(trains), Box::new(deep), Box::new(ltm), Box::new(lal), Box::new(texts), Box::new(InterruptedReads::new())];
             f.extend(walks);
             f
         },
